@@ -66,7 +66,7 @@ CP_CONFIGS = {
 }
 
 
-def run_cp(name, timeout=3000, sabotage=None):
+def run_cp(name, timeout=3000, sabotage=None, with_parse=False):
     """TLC on spec/CPSystem.tla: the transcribed change-point algorithms; WF, NoDup, refinement of every contract clause,
     tables of other registers untouched."""
     ml, mr, md, alpha, pal, mt = CP_CONFIGS[name]
@@ -84,15 +84,16 @@ def run_cp(name, timeout=3000, sabotage=None):
             open(p, 'w').write(src.replace(sabotage[0], sabotage[1]))
         with open(os.path.join(snap, 'MC.cfg'), 'w') as f:
             f.write('SPECIFICATION Spec\nCONSTANTS\n  MaxLen = %d\n  MaxRegs = %d\n  MaxDepth = %d\n  Alphabet = {%s}\n'
-                    '  Palette = {%s}\n  MaxTotalLen = %d\nINVARIANT WF\nINVARIANT NoDup\nPROPERTY Refines\nPROPERTY TablesFramed\n'
-                    'VIEW View\nCHECK_DEADLOCK FALSE\n' % (ml, mr, md, ', '.join(map(str, alpha)), ', '.join(map(str, pal)), mt))
+                    '  Palette = {%s}\n  MaxTotalLen = %d\n  WithParse = %s\nINVARIANT WF\nINVARIANT NoDup\nPROPERTY Refines\nPROPERTY TablesFramed\n'
+                    'VIEW View\nCHECK_DEADLOCK FALSE\n' % (ml, mr, md, ', '.join(map(str, alpha)), ', '.join(map(str, pal)), mt,
+                                                          'TRUE' if with_parse else 'FALSE'))
         tf = os.path.join(d, 'texts.json')
         with open(tf, 'w') as f:
             json.dump([[ord(c) for c in t] for t in PALETTE], f)
         rc, out, wall = tlcrun.run_tlc('CPSystem.tla', 'MC.cfg', env={'VERIF_TEXTS': tf}, workers=16, timeout=timeout, heap='8g', cwd=snap)
         ok = 'Model checking completed. No error has been found.' in out
         states, trans = tlcrun.parse_stats(out)
-        return {'model': 'CPSystem/' + name, 'ok': ok, 'states': states, 'transitions': trans, 'wall_s': round(wall, 1),
+        return {'model': 'CPSystem/' + name + ('+parse' if with_parse else ''), 'ok': ok, 'states': states, 'transitions': trans, 'wall_s': round(wall, 1),
                 'what': 'transcribed change-point algorithms (apply, remove, __getitem__, __iadd__, ljust/rjust/center, copy), texts <= %d, '
                         '%d registers, depth %d, palette %s: WF (the library self-check), NoDup, refinement of every contract clause, '
                         'TablesFramed on every transition' % (ml, mr, md, [PALETTE[i - 1] for i in pal]),
@@ -114,7 +115,7 @@ def run_cp_sim(seconds=240, seed=1):
                 shutil.copy(os.path.join(tlcrun.SPEC, fn), os.path.join(snap, fn))
         with open(os.path.join(snap, 'MC.cfg'), 'w') as f:
             f.write('SPECIFICATION Spec\nCONSTANTS\n  MaxLen = 4\n  MaxRegs = 3\n  MaxDepth = 6\n  Alphabet = {97, 98}\n'
-                    '  Palette = {1, 3, 4}\n  MaxTotalLen = 8\nINVARIANT WF\nINVARIANT NoDup\nPROPERTY Refines\nPROPERTY TablesFramed\n'
+                    '  Palette = {1, 3, 4}\n  MaxTotalLen = 8\n  WithParse = FALSE\nINVARIANT WF\nINVARIANT NoDup\nPROPERTY Refines\nPROPERTY TablesFramed\n'
                     'CHECK_DEADLOCK FALSE\n')
         tf = os.path.join(d, 'texts.json')
         with open(tf, 'w') as f:
@@ -201,7 +202,10 @@ def run_for(prop, tier, seed=1):
     if prop not in ('C01', 'C02', 'C03', 'C15'):
         return []
     name = 'small' if tier == 'thorough' else 'quick'
-    return [run_model(name, with_parse=prop in ('C02', 'C03'))]
+    runs = [run_model(name, with_parse=prop in ('C02', 'C03'))]
+    if prop in ('C01', 'C02', 'C03'):
+        runs.append(run_cp('cp_quick', with_parse=prop in ('C02', 'C03')))
+    return runs
 
 
 def exported_histories(tier):
